@@ -27,7 +27,7 @@ def fault(eng, label, content=True):
         # an error of the step, or the process being interrupted there (SIGINT arrives as KeyboardInterrupt - no Exception)
         if eng.branch(fresh(BOOL, 'interrupted_at_' + label).z):
             raise PyRaise('KeyboardInterrupt', 'interrupted at ' + label)
-        raise PyRaise('Exception', 'injected failure at ' + label)
+        raise PyRaise('AnyError', 'injected failure at ' + label)      # an Exception of unknown class (see engine.handler_matches)
 
 
 def monitor(eng, node, fr):
@@ -311,7 +311,7 @@ def worker_setup(eng):
         b = fresh(BOOL, 'task_fails')
         if e.branch(b.z):
             e.ghost['task_failed'] = True
-            raise PyRaise('Exception', 'failure inside a tagging task')
+            raise PyRaise('AnyError', 'failure inside a tagging task')      # of any class (ValueError, OSError, ...)
         return {'total_molecules_written': 1, 'time_start': None}
     eng.loader.call_hooks['singlecellmultiomics.universalBamTagger.tagging.run_tagging_task'] = task_stub
     eng.spec_env['GHOST'] = eng.ghost
@@ -319,12 +319,12 @@ def worker_setup(eng):
 
 worker = Contract(
     PROP, FG + '::run_tagging_tasks', name='run_tagging_tasks.failure_propagates',
-    params={'args': ('const', (('in.bam', '/tmp/x', None), [{'contig': 'a'}, {'contig': 'b'}]))},
+    params={'args': ('const', (('in.bam', '/tmp/x', None), [{'contig': '*'}, {'contig': 'a'}, {'contig': 'b'}]))},
     setup=worker_setup,
     ensures={'normal_return_means_no_task_failed': 'GHOST["task_failed"] == False'},
     raises={'Exception': 'True', 'KeyboardInterrupt': 'True'},
     bounded=None,
-    assumptions=['two tasks per job (the loop is unrolled: the claim is about exception propagation through the real '
+    assumptions=['three tasks per job - the unmapped bin * and two contigs (the loop is unrolled: the claim is about exception propagation through the real '
                  'sorted_bam_file context manager and the real try/except of run_tagging_tasks, not about task counts)'],
 )
 UNITS.append(worker)
@@ -342,31 +342,37 @@ def worker_replay(inputs, clause):
         sys.path.insert(0, REPO)
     mod = importlib.import_module('singlecellmultiomics.universalBamTagger.tagging')
     src = os.path.join(REPO, 'data', 'mini_nla_test.bam')
-    d = tempfile.mkdtemp(prefix='c20w_')
     saved = mod.run_tagging_task
-    calls = []
-
-    def fake(*a, **k):
-        calls.append(1)
-        if len(calls) == 2:
-            raise RuntimeError('injected failure inside the second tagging task')
-        return {'total_molecules_written': 1}
-    mod.run_tagging_task = fake
     so, se = sys.stdout, sys.stderr
     dn = open(os.devnull, 'w')
     sys.stdout = sys.stderr = dn
+    rows, bad = [], False
     try:
-        try:
-            out = mod.run_tagging_tasks(((src, d, None), [{'contig': 'a'}, {'contig': 'b'}]))
-            outcome = {'outcome': 'return', 'value': [out[0] is not None, out[1]]}
-        except Exception as e:     # noqa
-            outcome = {'outcome': 'raise', 'value': [type(e).__name__, str(e)]}
+        # a failure of several classes, in the task of the unmapped bin and in the task of a contig
+        for exc, failing in ((RuntimeError, 2), (ValueError, 1), (ValueError, 2), (OSError, 1), (KeyError, 3)):
+            calls = []
+
+            def fake(*a, **k):
+                calls.append(1)
+                if len(calls) == failing:
+                    raise exc('injected failure inside tagging task %d' % failing)
+                return {'total_molecules_written': 1}
+            mod.run_tagging_task = fake
+            d = tempfile.mkdtemp(prefix='c20w_')
+            try:
+                out = mod.run_tagging_tasks(((src, d, None), [{'contig': '*'}, {'contig': 'a'}, {'contig': 'b'}]))
+                rows.append({'failure': exc.__name__, 'in_task': failing, 'outcome': 'returned normally', 'value': [out[0] is not None, out[1]]})
+                bad = True
+            except Exception as e:     # noqa
+                rows.append({'failure': exc.__name__, 'in_task': failing, 'outcome': 'raised ' + type(e).__name__})
+            finally:
+                shutil.rmtree(d, ignore_errors=True)
     finally:
         sys.stdout, sys.stderr = so, se
         dn.close()
         mod.run_tagging_task = saved
-        shutil.rmtree(d, ignore_errors=True)
-    if outcome['outcome'] == 'return':
+    outcome = {'outcome': 'return', 'value': rows}
+    if bad:
         return {'status': 'confirmed', 'observed': outcome,
                 'failed': [{'clause': 'normal_return_means_no_task_failed', 'why': 'the worker returned normally although a task raised'}]}
     return {'status': 'not-reproduced', 'observed': outcome}
